@@ -34,6 +34,13 @@ pub struct C17;
 pub const ALPHABET: &[char] = &[
     '0', '1', '2', '3', '4', '5', '6', '7', '8', '9', '9', '0', '/', '/', ' ', ' ', '-', 'w', 'b', 'K', 'Q', 'k', 'q', 'P', 'N', 'B', 'R', 'p', 'n', 'r', 'a', 'b', 'c', 'd',
     'e', 'f', 'g', 'h', 'i', 'x', 'z', 'A', 'E', 'H', 'W', 'é', 'š', '♔', '\t', '\u{1}',
+    // characters that the `char` predicates of the standard library class with digits, letters or blanks although
+    // they are not ASCII: decimal digits of other scripts, superscripts, fractions and letter-like numerals
+    // (`is_numeric`), the Kelvin sign and the long s (whose case mappings are ASCII letters), full-width forms,
+    // no-break / em / ideographic spaces (`is_whitespace`), dashes and a full-width slash
+    '\u{0663}', '\u{0668}', '\u{FF18}', '\u{FF11}', '\u{00B2}', '\u{00B9}', '\u{3038}', '\u{0F33}', '\u{00BD}', '\u{2167}', '\u{2460}',
+    '\u{212A}', '\u{017F}', '\u{0131}', '\u{FF2B}', '\u{FF50}', '\u{FF57}',
+    '\u{00A0}', '\u{2003}', '\u{3000}', '\u{2028}', '\u{FF0F}', '\u{FF0D}', '\u{2013}',
 ];
 
 /// Canonicalisation `T`: the most lenient reading a FEN-like text can be given. Collapse whitespace; sum
@@ -343,7 +350,7 @@ impl Prop for C17 {
     }
 
     fn rule(&self) -> String {
-        "Cases: a well-formed FEN rendered by the reference model from the end of a generated walk (4, 5 or 6 fields; en-passant square FIDE-style after every double push or only when capturable), then 0-3 generated edits (insert / delete / replace / duplicate / truncate / swap at a generated offset inside a generated field; alphabet biased to the grammar: digits 0-9, piece letters of both cases, '/', '-', space, a-z, A-Z, é š ♔, tab, control byte). Oracle: never panics; a string the strict reference reader accepts as a sane position must import as exactly that position (fields 1-4, hash by the key-file combiner, legal list); any other string must be refused, or be imported as the position its most lenient documented reading (canonicalisation T) describes. About 1 case in 250 is also sent to the real binary (`position fen S`, `isready`, `show`, `quit`). Thorough adds a libFuzzer campaign on the same oracle. evaluations = strings judged. Non-trivial: a mutant the strict reader rejects and whose canonical form differs from the unedited text's; distinct by string; classes by field reported.".into()
+        "Cases: a well-formed FEN rendered by the reference model from the end of a generated walk (4, 5 or 6 fields; en-passant square FIDE-style after every double push or only when capturable), then 0-3 generated edits (insert / delete / replace / duplicate / truncate / swap at a generated offset inside a generated field; alphabet biased to the grammar: digits 0-9, piece letters of both cases, '/', '-', space, a-z, A-Z, é š ♔, tab, control byte, and two dozen non-ASCII characters that the standard library's `char` predicates class with digits, letters or blanks: digits of other scripts, superscripts, fractions, letter-like numerals, the Kelvin sign, full-width forms, no-break and ideographic spaces, dashes). Oracle: never panics; a string the strict reference reader accepts as a sane position must import as exactly that position (fields 1-4, hash by the key-file combiner, legal list); any other string must be refused, or be imported as the position its most lenient documented reading (canonicalisation T) describes. About 1 case in 250 is also sent to the real binary (`position fen S`, `isready`, `show`, `quit`). Thorough adds a libFuzzer campaign on the same oracle. evaluations = strings judged. Non-trivial: a mutant the strict reader rejects and whose canonical form differs from the unedited text's; distinct by string; classes by field reported.".into()
     }
 
     fn assumptions(&self) -> Vec<String> {
